@@ -402,10 +402,10 @@ pub fn run(rep: &mut Report) {
             for kind in genpk::kinds(ver, w, 0) {
                 genpk::enumerate(&kind, 1, &mut |_l, ap| {
                     let b = rc::encode(ap, w);
-                    if b.len() <= 300 {
-                        if let Framed::Frame { ty, flags, body, .. } = rc::frame_one(&b) {
-                            seeds.push((ver, w, ty, flags, body));
-                        }
+                    // (long seeds - maximum-length strings, 64 KiB payloads - are parsed as they are; only
+                    // seeds of up to 300 bytes are mutated)
+                    if let Framed::Frame { ty, flags, body, .. } = rc::frame_one(&b) {
+                        seeds.push((ver, w, ty, flags, body));
                     }
                 });
             }
@@ -424,6 +424,9 @@ pub fn run(rep: &mut Report) {
             }
         };
         run(body, &mut acc);
+        if body.len() > 300 {
+            return acc;
+        }
         let level = if thorough { 1 } else { 0 };
         let muts = crate::stim::mutations("", body, level);
         for (_, m) in &muts {
